@@ -45,7 +45,7 @@ CONSTANTS
     LateClose,   \* BOOLEAN: see above
     NoRun        \* the empty run ID
 
-ASSUME Cap \in Nat /\ Frag \in BOOLEAN /\ SigRuns \subseteq Runs /\ BadSigRuns \subseteq SigRuns
+ASSUME Cap \in Nat /\ Frag \in BOOLEAN /\ SigRuns \subseteq Runs /\ BadSigRuns \subseteq Runs
 
 VARIABLES
     \* ---- client
@@ -103,6 +103,7 @@ Flushed(w) == Len(w) <= Cap           \* the in-progress write has been taken ov
 \* what a decoder makes of its buffer: a whole message, nothing yet, or garbage
 HeadKind(buf) ==
     IF buf = <<>> THEN "empty"
+    ELSE IF buf[1].m.t \in {"eof", "junk"} THEN "garbage"      \* end of stream marker / undecodable bytes
     ELSE IF buf[1].p = 0 THEN "msg"
     ELSE IF buf[1].p = 1 THEN
         (IF Len(buf) = 1 THEN "partial" ELSE IF buf[2].p = 2 /\ buf[2].m = buf[1].m THEN "msg2" ELSE "garbage")
